@@ -70,3 +70,9 @@ Definition err_data (e : rerr) : option jv :=
   match e_data e with VNull => None | d => Some (to_jv d) end.
 Definition one_error (reply : bytes) (e : rerr) : list pubmsg :=
   [Pub reply (PError (e_code e) (e_msg e) None None)].
+
+(* the Request a matched, decodable message is turned into *)
+Definition req_ctx (m : msg) (mh : hmatch) (rt rn me : bytes) (d : reqdata) : ctx :=
+  Ctx (ms_reply m) rt rn me (m_h mh) (m_params mh) (m_group mh) d.
+Definition is_internal_error (p : payload) : Prop :=
+  exists msg d m, p = PError code_internal msg d m.
